@@ -59,7 +59,7 @@ mutual
       let bl : Lbl := ("_while_begin_", c)
       let el : Lbl := ("_while_end_", c)
       let body := expandA ip (some (bl, el)) b sl (c + 1)
-      (([.label bl, .goto el] ++ body.1.1 ++ [.goto bl, .label el], body.1.2), body.2.1, body.2.2)
+      (([.label bl, .goto el] ++ body.1.1 ++ [.jump bl, .label el], body.1.2), body.2.1, body.2.2)
     | .ifS t f, sl, c =>
       let elseL : Lbl := ("if_else_body_label_", c)
       let endL : Lbl := ("if_end_label_", c + 1)
@@ -68,7 +68,7 @@ mutual
         (([.goto endL] ++ te.1.1 ++ [.label endL], te.1.2), te.2.1, te.2.2)
       else
         let fe := expandA ip cb f te.2.2 te.1.2
-        (([.goto elseL] ++ te.1.1 ++ [.goto endL, .label elseL] ++ fe.1.1 ++ [.label endL], fe.1.2), te.2.1 ++ fe.2.1, fe.2.2)
+        (([.goto elseL] ++ te.1.1 ++ [.jump endL, .label elseL] ++ fe.1.1 ++ [.label endL], fe.1.2), te.2.1 ++ fe.2.1, fe.2.2)
     | .send, sl, c => (expandStmt cb .send c, [], sl)
     | .matchEv, sl, c => (expandStmt cb .matchEv c, [], sl)
     | .assign, sl, c => (expandStmt cb .assign c, [], sl)
